@@ -148,15 +148,23 @@ def regen_coqproject():
 
 
 def coq_build(target: str | None, force: bool = True, timeout: int = 1500):
-    """Full .vo build of one Props file (or everything).  Returns (ok, log)."""
+    """Full .vo build of one Props file (or everything).  Returns (ok, log).
+    The project lock is held only while the Makefile is regenerated; builds of different
+    targets run concurrently (one lock per target)."""
     with Lock():
         regen_coqproject()
+    with Lock("make-" + (target or "all").replace("/", "_")):
         if target and force:
             vo = COQ / target
             if vo.exists():
                 vo.unlink()
-        cmd = ["make", "-j16"] + ([target] if target else [])
+        cmd = ["make", "-j8"] + ([target] if target else [])
         rc, out = sh(cmd, cwd=COQ, timeout=timeout)
+        if rc != 0 and "No rule to make target" in out:
+            # another process regenerated the Makefile between our two steps: once more
+            with Lock():
+                regen_coqproject()
+            rc, out = sh(cmd, cwd=COQ, timeout=timeout)
         return rc == 0, out
 
 
